@@ -1,48 +1,3 @@
-import SaramaVerif.Driver.Util
-import SaramaVerif.Model.Group
-/-
-  Replays the merged coordinator-request / handler-callback sequence of every group scenario through
-  Model.Group.step.   Lines:
-    greset <retryMax>
-    q join <member> <kerror> <dropped> <issuedMember> <issuedGen>
-    q sync|heartbeat|commit <member> <gen> <kerror> <dropped>
-    h setup <session> <member> <gen> | h claimstart <session> <p> <off> | h claimend <session> <p> | h cleanup <session> | h return <session>
--/
-namespace Driver.C07
-open Model.Group Driver
-
-structure DS where
-  st : St := {}
-  failed : Bool := false
-
-def classify (code : Int) (dropped : Bool) : Verdict :=
-  if dropped then .dropped else classOfCode code
-
-def toEv : List String → Option Ev
-  | ["q", "join", m, code, d, im, ig] => some (.join (nat! m) (classify (int! code) (d = "1")) (nat! im) (int! ig))
-  | ["q", "sync", m, g, code, d] => some (.sync (nat! m) (int! g) (classify (int! code) (d = "1")))
-  | ["q", "heartbeat", m, g, code, d] => some (.heartbeat (nat! m) (int! g) (classify (int! code) (d = "1")))
-  | ["q", "commit", m, g, code, d] => some (.commit (nat! m) (int! g) (classify (int! code) (d = "1")))
-  | ["h", "setup", n, m, g] => some (.setup (nat! n) (nat! m) (int! g))
-  | ["h", "claimstart", n, p, _off] => some (.claimStart (nat! n) (nat! p))
-  | ["h", "claimend", n, p] => some (.claimEnd (nat! n) (nat! p))
-  | ["h", "cleanup", n] => some (.cleanup (nat! n))
-  | ["h", "return", n] => some (.ret (nat! n))
-  | _ => none
-
-def step (d : DS) (t : List String) : DS × String :=
-  match t with
-  | ["greset", _rm] => ({}, "ok")
-  | _ =>
-    if d.failed then (d, "ok") else
-    match toEv t with
-    | none => (d, "bad-op")
-    | some e =>
-      match Model.Group.step d.st e with
-      | .ok s' => ({ d with st := s' }, "ok")
-      | .error m => ({ d with failed := true }, s!"reject: {m}")
-
-end Driver.C07
-
+import SaramaVerif.Driver.GroupTrace
 def main : IO Unit := do
-  Driver.loop (← IO.getStdin) (← IO.getStdout) Driver.C07.step {}
+  Driver.loop (← IO.getStdin) (← IO.getStdout) Driver.GroupTrace.step {}
